@@ -3,6 +3,7 @@ instantiated against the current RefModel state."""
 from . import refmodel as rm, gen
 
 BAD_NAMES = ["1abc", "class", "_hidden", "a b", "", "lambda", "__x__", "x-y"]
+BAD_OBJECTS = ["int", "builtin", "two-lambdas", "object"]
 BAD_SOURCES = ["lambda x: (", "def f(x) return x", "not a function", "lambda : : 3", "def (x): return x",
                "x = 3"]
 
@@ -40,6 +41,8 @@ def candidates(mach):
             params = c.formula["params"] if c.formula else []
             for bad in BAD_SOURCES[:3]:
                 out.append({"op": "set_formula", "space": p, "name": n, "src": bad, "why": "malformed"})
+            for bad in BAD_OBJECTS:
+                out.append({"op": "set_formula", "space": p, "name": n, "src": "<%s>" % bad, "badobj": bad, "why": "malformed-object"})
             out.append({"op": "rename_cells", "space": p, "name": n, "new": BAD_NAMES[len(out) % len(BAD_NAMES)], "why": "badname"})
             others = [x for x in list(dc) + list(dr) + list(s.spaces) if x != n]
             if others:
@@ -60,9 +63,15 @@ def candidates(mach):
         out.append({"op": "del_ref", "space": p, "name": "nosuch", "why": "del-missing"})
         out.append({"op": "del_cells", "space": p, "name": "nosuch", "how": "delattr", "why": "del-missing", "force": True})
         for bad in BAD_NAMES:
+            out.append({"op": "new_cells", "space": p, "name": bad, "src": "lambda x: x", "why": "badname"})
+            for n in list(dc)[:1]:
+                # an invalid explicit name together with a def formula named like an existing cells
+                out.append({"op": "new_cells", "space": p, "name": bad, "src": "def %s(x):\n    return x" % n, "why": "badname-def-of-existing"})
             out.append({"op": "new_space", "parent": p, "name": bad, "bases": [], "why": "badname"})
             out.append({"op": "rename_space", "space": p, "new": bad, "why": "badname"})
             out.append({"op": "set_ref", "space": p, "name": bad, "value": {"t": "int", "v": 5}, "why": "badname"})
+        for bad in BAD_OBJECTS:
+            out.append({"op": "new_cells", "space": p, "name": "zz", "src": "<%s>" % bad, "badobj": bad, "why": "malformed-object"})
         for bad in BAD_SOURCES:
             out.append({"op": "new_cells", "space": p, "name": "zz", "src": bad, "why": "malformed"})
             out.append({"op": "set_sformula", "space": p, "sfsrc": bad, "formula": {"params": [], "ret": None}, "why": "malformed"})
